@@ -88,6 +88,9 @@ func (c *ClusterNode) RPCSendShard(args *RPCSendShardRequest, reply *RPCSendShar
 	if args.Dest != c.MyHostname {
 		return c.internalRoute("ClusterNode.RPCSendShard", args, reply)
 	}
+	if err := verifPoint("recv-chunk", args.ChunkIndex); err != nil {
+		return err
+	}
 	// ---------------------------
 	shardPath := filepath.Join(c.cfg.ShardManager.RootDir, USERCOLSDIR, args.UserId, args.CollectionId, args.ShardId, "sharddb.bbolt")
 	if args.ChunkIndex == 0 {
